@@ -25,6 +25,24 @@ def programs(ctx: Ctx, n: int):
         yield text, widths, rws, "loop-family"
     for text, widths, rws in progs.cf_truth_family():
         yield text, widths, rws, "cf-truth-family"
+    # the shapes rewrite patterns look for (constants 0/1/-1/2 on either side, equal operands, bool-to-int selects, equal
+    # expressions in sibling regions, loop-invariant code) for i1 / i32 / i64 / index
+    from .. import serialize
+    from . import c17
+
+    fam = c17.idiom_family()
+    frng = ctx.rng("idioms")
+    if ctx.quick:
+        fam = frng.sample(fam, 160)
+    for text in fam:
+        try:
+            m = progs.parse(text)
+            f = next(iter(m.body.block.ops))
+            widths = serialize.arg_widths(f)
+            rws = [serialize.width_of(t) for t in f.function_type.outputs.data]
+        except Exception:  # noqa: BLE001
+            continue
+        yield text, widths, rws, "idiom-family"
 
 
 def run(ctx: Ctx):
@@ -33,7 +51,7 @@ def run(ctx: Ctx):
     ctx.log(f"{len(cases)} (program, pass) pairs changed by a pass; {stats}")
     tv.judge(ctx, cases, metas, "C14")
     ctx.coverage.update({"pass_stats": stats, "passes": PASSES,
-                         "rule": "generated programs x passes; only pairs where the pass changed the program are executed; inputs exhaustive for widths <=4, boundary+random otherwise"})
+                         "rule": "generated programs, loop / cf-truth families and the idiom family (rewrite-pattern shapes over i1/i32/i64/index) x passes; only pairs where the pass changed the program are executed; inputs exhaustive for widths <=4, boundary+random otherwise"})
     ctx.sample({"pass": metas[0]["pass"], "before": metas[0]["text"], "after": metas[0].get("after", "")} if metas else "none")
     ctx.assumptions += ["Machine.tla is the reference semantics (integer fragment; floating point not modelled)",
                         "operations whose MLIR result is undefined in the source (division by zero, shift >= width, ...) impose no obligation"]
